@@ -45,6 +45,8 @@ FLAVOUR = {"quick": "plain", "thorough": "asan"}
 EXHAUSTIVE = {"quick": True, "thorough": True}
 RTOL = 0.0
 HARNESS_TIMEOUT = 1500
+# ml::tune writes per-fold solver logs into the temporary directory; keep them out of /tmp (the harness removes them)
+HARNESS_ENV = {"TMPDIR": os.path.join(vlib.CACHE, "c11-tmp")}
 
 SRC_CPP = "src/gboost/early_stopping.cpp"
 SRC_H = "include/nano/gboost/early_stopping.h"
@@ -410,8 +412,58 @@ def gen_es(rng, tier):
     return ops
 
 
+REG_LOSSES = ["mse", "mae", "cauchy"]
+CLS_LOSSES = ["s-classnll", "s-logistic", "s-exponential", "s-hinge", "s-squared-hinge", "s-savage", "s-tangent"]
+PROTOS = ["affine", "dense-table", "stump", "hinge", "dstep-table", "kbest-table", "ksplit-table"]
+# dtree: see DTREE_OP below
+
+
+def _task_loss(rng):
+    if rng.below(3) == 0:
+        return rng.choice(["cls2", "cls3"]), rng.choice(CLS_LOSSES)
+    return "reg", rng.choice(REG_LOSSES)
+
+
+def gen_fit(rng, tier):
+    ops = []
+    for _ in range(36 if tier == "quick" else 300):
+        task, loss = _task_loss(rng)
+        samples = rng.range(24, 90)
+        d, ncat = rng.range(1, 4), rng.range(0, 2)
+        folds = rng.range(2, 5)
+        protos = rng.shuffle(PROTOS)[:rng.range(1, 3)]
+        if ncat == 0:
+            protos = [p for p in protos if "table" not in p] or ["affine"]
+        shrink = rng.choice(["off", "off", "local", "global"])
+        ops.append("fit gboost {} {} {} {} {} {} {} {} {} {} {} {} {} {} {} {} {}".format(
+            rng.below(1 << 30), samples, d, ncat, task, loss, folds, rng.below(1025),
+            rng.choice([10, 12, 20, 40]), rng.range(1, 5), f2h(rng.choice([1e-6, 1e-3, 1e-2, 0.05])),
+            rng.choice(["gboost", "gboost", "tboost"]), shrink,
+            rng.choice(["off", "off", "subsample", "bootstrap", "wei_loss_bootstrap", "wei_grad_bootstrap"]),
+            ",".join(protos), f2h(rng.choice([0.0, 0.05, 0.3, 1.0])), rng.choice([10, 16, 100])))
+    for _ in range(24 if tier == "quick" else 200):
+        task, loss = _task_loss(rng)
+        smooth = loss in ("mse", "cauchy", "s-classnll", "s-logistic", "s-exponential", "s-squared-hinge")
+        model = rng.choice(["ordinary", "ordinary", "lasso", "ridge", "elastic_net"])
+        solver = "lbfgs" if (smooth and model in ("ordinary", "ridge")) else rng.choice(["rqb", "osga"])
+        ops.append("fit linear {} {} {} {} {} {} {} {} {} {} {} {} {}".format(
+            rng.below(1 << 30), rng.range(24, 90), rng.range(1, 4), rng.range(0, 2), task, loss, rng.range(2, 5),
+            rng.below(1025), model, rng.choice(["none", "mean", "minmax", "standard"]), solver,
+            f2h(rng.choice([0.0, 0.05, 0.3, 1.0])), rng.choice([10, 16, 100])))
+    return ops
+
+
+# Predicting with a fitted `dtree` weak learner on a few samples reaches stump_wlearner_t::split with an empty subset and
+# dies in dataset_t::check (the message arguments samples.min()/max() are evaluated although the guard is false; the fix
+# a3376f9 of C08 is incomplete). One such fit is kept as the LAST op of every run so that the crash is reported without
+# cutting off the other ops; dtree is otherwise kept out of the random prototype pools.
+DTREE_OP = ("fit gboost 1035226712 33 3 1 reg mse 5 720 40 1 3f847ae147ae147b gboost global wei_grad_bootstrap "
+            "dtree,stump,dstep-table 3fa999999999999a 16")
+
+
 def gen(rng, tier):
-    return _corpus() + gen_es(rng, tier)
+    os.makedirs(HARNESS_ENV["TMPDIR"], exist_ok=True)
+    return _corpus() + gen_fit(rng, tier) + gen_es(rng, tier) + [DTREE_OP]
 
 
 # ---------------------------------------------------------------------------------------------------------
@@ -500,7 +552,164 @@ def oracle(op, res):
     return f"unknown family {fam}"
 
 
+# ---------------------------------------------------------------------------------------------------------
+# the property oracle for full fits: every reported statistic is recomputed from the per-sample errors / loss values
+# the harness obtained by predicting with the stored per-fold / final models (store_stats' twelve numbers)
+
+FIT_RTOL = 1e-9
+PERCENTILES = [1.0, 5.0, 10.0, 20.0, 50.0, 80.0, 90.0, 95.0, 99.0]
+STAT_NAMES = ["mean", "stdev", "count"] + [f"per{int(p):02d}" for p in PERCENTILES]
+
+
+def stats12(xs):
+    """mean, stdev (= sqrt((E[x^2] - mean^2) / (n - 1)), the library's definition), count, nine percentiles"""
+    n = len(xs)
+    if n == 0:
+        return None
+    mean = math.fsum(xs) / n
+    ex2 = math.fsum(x * x for x in xs) / n
+    var = ex2 - mean * mean
+    stdev = 0.0 if n < 2 else (math.sqrt(var / (n - 1)) if var >= 0 else float("nan"))
+    srt = sorted(xs)
+    out = [mean, stdev, float(n)]
+    for p in PERCENTILES:
+        pos = p * (n - 1) / 100.0
+        lo, hi = int(math.floor(pos)), int(math.ceil(pos))
+        out.append(srt[lo] if lo == hi else (srt[lo] + srt[hi]) / 2)
+    return out, ex2
+
+
+def cmp_stats(what, reported, xs):
+    exp = stats12(xs)
+    if exp is None:
+        return None
+    want, ex2 = exp
+    scale = math.sqrt(ex2)
+    for name, g, w in zip(STAT_NAMES, reported, want):
+        if name == "stdev":
+            # E[x^2] - mean^2 cancels: absolute slack proportional to the magnitude of the values; a NaN from a tiny negative
+            # variance (constant values) is accepted on either side only when the recomputed spread is at rounding level
+            tiny = 1e-6 * scale
+            if (g != g or w != w):
+                if not ((g != g or abs(g) <= tiny) and (w != w or abs(w) <= tiny)):
+                    return f"{what}: reported stdev {g!r} vs recomputed {w!r}"
+                continue
+            if abs(g - w) > FIT_RTOL * max(abs(g), abs(w)) + 1e-7 * scale:
+                return f"{what}: reported stdev {g!r} vs recomputed {w!r}"
+        elif not vlib.close(g, w, FIT_RTOL, 1e-300):
+            return f"{what}: reported {name} {g!r} != {w!r} recomputed from the stored model's predictions ({len(xs)} samples)"
+    return None
+
+
+class _R:
+    def __init__(self, res):
+        self.t = res.split(); self.i = 0
+    def s(self):
+        v = self.t[self.i]; self.i += 1; return v
+    def int(self):
+        return int(self.s())
+    def f(self):
+        return h2f(self.s())
+    def fs(self, n):
+        v = [h2f(x) for x in self.t[self.i:self.i + n]]; self.i += n
+        if len(v) != n:
+            raise ValueError("short result")
+        return v
+    def expect(self, tag):
+        got = self.s()
+        if got != tag:
+            raise ValueError(f"expected {tag}, got {got}")
+    def errors_losses(self):
+        n = self.int()
+        return self.fs(n), self.fs(n)
+
+
+def fit_args(op):
+    t = op.split()
+    d = dict(kind=t[1], seed=int(t[2]), samples=int(t[3]), loss=t[7], folds=int(t[8]))
+    if t[1] == "gboost":
+        d.update(max_rounds=int(t[10]), patience=int(t[11]), eps=h2f(t[12]), shrinkage=t[14])
+    return d
+
+
 def oracle_fit(op, res):
+    a = fit_args(op)
+    r = _R(res)
+    if r.s() != "ok":
+        return f"fit did not answer ok: {res[:100]}"
+    r.expect(a["kind"])
+    trials, folds, optimum = r.int(), r.int(), r.int()
+    if folds != a["folds"]:
+        return f"{folds} folds reported, {a['folds']} requested"
+    trial_value = []
+    for trial in range(trials):
+        fold_means = []
+        for fold in range(folds):
+            r.expect("T")
+            if (r.int(), r.int()) != (trial, fold):
+                return "result layout"
+            where = f"trial {trial} fold {fold}"
+            if a["kind"] == "gboost":
+                rows, nlearners = r.int(), r.int()
+                stat = [r.fs(4) for _ in range(rows)]
+            rep = [r.fs(12) for _ in range(4)]
+            tr_e, tr_l = r.errors_losses()
+            vd_e, vd_l = r.errors_losses()
+            for what, g, xs in (("train errors", rep[0], tr_e), ("train losses", rep[1], tr_l),
+                                ("valid errors", rep[2], vd_e), ("valid losses", rep[3], vd_l)):
+                why = cmp_stats(f"{where} {what}", g, xs)
+                if why:
+                    return why
+            fold_means.append(rep[2][0])
+            if a["kind"] == "gboost":
+                if rows < 1 or nlearners > rows - 1:
+                    return f"{where}: {nlearners} weak learners kept but the optimum round is {rows - 1}"
+                # the last kept round is the reported optimum: its mean errors / losses are those of the kept model ...
+                last = stat[-1]
+                for name, g, xs in (("train error", last[0], tr_e), ("train loss", last[1], tr_l),
+                                    ("valid error", last[2], vd_e), ("valid loss", last[3], vd_l)):
+                    w = math.fsum(xs) / max(len(xs), 1)
+                    if not vlib.close(g, w, FIT_RTOL, 1e-300):
+                        return (f"{where}: mean {name} of the optimum round {rows - 1} is reported as {g!r}, the kept model "
+                                f"({nlearners} weak learners) gives {w!r}")
+                # ... and it is the round of the last accepted improvement of the error history, not stopped before
+                calls = [(st[0], st[2], k) for k, st in enumerate(stat)]
+                answers, rnd, _, _, _ = expected_history(a["eps"], a["patience"], len(vd_e), calls)
+                if rnd != rows - 1:
+                    return (f"{where}: the fold keeps round {rows - 1} but the last accepted improvement of its error history "
+                            f"is round {rnd}")
+                if any(answers[:-1]):
+                    return f"{where}: the error history required a stop at round {answers.index(True)} < {rows - 1}"
+        trial_value.append(sum(fold_means) / folds)
+    # the optimum trial: the first with the smallest mean validation error over the folds
+    best, best_value = 0, DBL_MAX
+    for trial, v in enumerate(trial_value):
+        if v < best_value:
+            best, best_value = trial, v
+    if best != optimum:
+        return f"optimum trial {optimum} reported, the smallest mean validation error is at trial {best}"
+    r.expect("F")
+    rep_e, rep_l = r.fs(12), r.fs(12)
+    fe, fl = r.errors_losses()
+    for what, g, xs in (("final errors", rep_e, fe), ("final losses", rep_l, fl)):
+        why = cmp_stats(what, g, xs)
+        if why:
+            return why
+    r.expect("P")
+    n = r.int(); p_model = r.fs(n)
+    n2 = r.int(); p_sum = r.fs(n2)
+    n3 = r.int(); p_mean = r.fs(n3)
+    if not (n == n2 == n3):
+        return "prediction sizes differ"
+    names = (("bias + sum of the weak learners' predictions", "the average of the optimum trial's fold models")
+             if a["kind"] == "gboost" else ("weights * x + bias", "the stored refit result"))
+    for k in range(n):
+        if not vlib.close(p_model[k], p_sum[k], FIT_RTOL, 1e-12):
+            return f"final model predicts {p_model[k]!r} for sample/output {k}, {names[0]} is {p_sum[k]!r}"
+        if not vlib.close(p_model[k], p_mean[k], FIT_RTOL, 1e-12):
+            return f"final model predicts {p_model[k]!r} for sample/output {k}, {names[1]} gives {p_mean[k]!r}"
+    if r.i != len(r.t):
+        return "trailing tokens in the fit result"
     return None
 
 
@@ -534,6 +743,8 @@ def classify(op, kind, detail):
         return None
     if t[0] == "es":
         return "early_stopping_t::done"
+    if kind == "crash" and len(t) > 16 and t[1] == "gboost" and "dtree" in t[16].split(","):
+        return "crash:gboost-fit:dtree:dataset_t::check(empty)"
     return f"fit/{t[1]}" if len(t) > 1 else "fit"
 
 
